@@ -134,6 +134,11 @@ impl PacketSender {
         self.base_id
     }
 
+    #[cfg(feature = "verif")]
+    pub fn verif_alloc(&self) -> usize {
+        self.alloc
+    }
+
     // Places a user packet on the send queue.
     pub fn enqueue_packet(&mut self, data: Box<[u8]>, channel_id: u8, mode: SendMode, flush_id: u32) {
         debug_assert!(data.len() <= MAX_PACKET_SIZE);
@@ -248,6 +253,8 @@ impl PacketSender {
         }
 
         while self.base_id != receiver_base_id {
+            #[cfg(feature = "verif")]
+            crate::verif::tick();
             let window_idx = window_index!(self, self.base_id);
             let ref mut entry = self.window[window_idx].as_ref().unwrap();
 
